@@ -262,7 +262,11 @@ func specWrites(sp *FuncSpec, fn *ssa.Function) map[string]bool {
 	}
 	st := NewState("dummy")
 	env := ex.specEnv(nil, fn, sp, args, st, st)
-	for _, m := range sp.Modifies {
+	locs := append([]*CExpr{}, sp.Modifies...)
+	for _, gs := range sp.GhostSets {
+		locs = append(locs, gs.Loc)
+	}
+	for _, m := range locs {
 		func() {
 			defer func() {
 				if r := recover(); r != nil {
@@ -405,10 +409,21 @@ func (fr *Frame) callBySpecCommon(fn *ssa.Function, sp *FuncSpec, sig *types.Sig
 				}
 			}
 		}
+		// 'anything' is bounded by what the callee's body (transitively, by type) can write at all
+		var bodyW map[string]bool
+		if fn != nil && fn.Blocks != nil && inScope(fn) {
+			bodyW = funcWrites(fn, map[*ssa.Function]bool{})
+			if bodyW["*"] {
+				bodyW = nil
+			}
+		}
 		var names []string
 		for n := range memArrays {
 			if strictGhost[n] {
 				continue // ghost state changes only through declared ghostset / modifies clauses
+			}
+			if bodyW != nil && !bodyW[n] {
+				continue
 			}
 			if strings.HasPrefix(n, "G$") || reach[n] || reach["*"] {
 				names = append(names, n)
